@@ -156,6 +156,28 @@ theorem season_post_ideal (sunLon : ℝ → ℝ) (fuel : Nat) (year : Int) (targ
   rw [key, abs_mul, abs_of_pos (by positivity : (0 : ℝ) < 180 / Real.pi)]
   exact mul_le_mul_of_nonneg_right hm (by positivity)
 
+/-- The same in plain degrees: at the returned instant the solar longitude is within 2.5·10⁻⁶ degree
+    of `k·90° + n·180°` for some integer `n` (the property's tolerance is 10⁻⁵ degree; that `n` is
+    even — the longitude is `k·90°` and not its antipode — is measured, not proved). -/
+theorem season_post_degrees (sunLon : ℝ → ℝ) (fuel : Nat) (year : Int) (target : String) (e : ℝ)
+    (h : get_equinox_solstice (fun x => .ok x) sunLon fuel year target = .ok (some e)) :
+    ∃ k : Int, season_index target = .ok k ∧ ∃ n : ℤ, |((k : ℝ) * 90 - sunLon e) - 180 * n| ≤ 0.0000025 := by
+  obtain ⟨k, hk, _, n, hn⟩ := season_post_ideal sunLon fuel year target e h
+  exact ⟨k, hk, n, le_trans hn season_angle_bound⟩
+
+/-- Non-vacuity of the loop post-condition: with a Sun standing at longitude 0° the spring search of
+    year 2000 exits in its first pass (`corr = 0`) and returns the approximate instant itself. -/
+example : get_equinox_solstice (fun x => .ok x) (fun _ => 0) 1 2000 "spring" =
+    .ok (some 2451623.80984) := by
+  have hc : season_corr 0 0 = 0 := by
+    unfold season_corr season_arg aNeg aSubF aAdd aToPositive plt ofInt psin pradians
+    norm_num [aReduce_zero]
+  have hj : season_jde0 2000 0 = .ok 2451623.80984 := by
+    unfold season_jde0 ofInt; norm_num
+  unfold get_equinox_solstice
+  simp only [season_index, if_true, hj, loopFuel, season_step, hc, plt, pabs]
+  norm_num
+
 /-! ## Equation of time -/
 
 /-- The "±180° reduction" `e = e - 360.0 * round(e / 360.0)` does NOT reduce: carried out on `Angle`
@@ -365,5 +387,124 @@ theorem rise_safe_counterexample :
   rw [Real.sin_neg] at hlt
   unfold psin pcos
   linarith
+
+/-- The hypotheses of `rise_safe_partial` / `rise_order` are satisfiable up to the boundary
+    (sea level, latitude 65.73° = 90° − 23.44° − 0.83°), any date and longitude. -/
+example (ejde lon : ℝ) : ∃ r, rise_set_core ejde 27 65.73 lon 0 = .ok r ∧ -1 ≤ r.2.2 ∧ r.2.2 ≤ 1 := by
+  obtain ⟨⟨jt, om, c⟩, hr⟩ := rise_safe_partial ejde 27 65.73 lon 0 le_rfl (by rw [Real.sqrt_zero]; norm_num)
+  obtain ⟨h1, h2, _⟩ := rise_order ejde 27 65.73 lon 0 jt om c hr
+  exact ⟨_, hr, h1, h2⟩
+
+/-! ## times_rise_transit_set -/
+
+/-- "reports no times exactly when …": `(None, None, None)` is returned iff `|cos H0| > 1`, where
+    `cos H0 = (sin h0 − sin φ sin δ2) / (cos φ cos δ2)` is formed from the body's MIDDLE position
+    (`cos φ cos δ2 ≠ 0`: otherwise Python raises ZeroDivisionError). -/
+theorem rts_none_iff (lon lat a1 d1 a2 d2 a3 d3 h0 dt th0 : ℝ)
+    (hden : Real.cos (lat * (Real.pi / 180)) * Real.cos (d2 * (Real.pi / 180)) ≠ 0) :
+    times_rise_transit_set lon lat a1 d1 a2 d2 a3 d3 h0 dt th0 = .ok none ↔
+      1 < |(Real.sin (h0 * (Real.pi / 180)) - Real.sin (lat * (Real.pi / 180)) * Real.sin (d2 * (Real.pi / 180))) /
+            (Real.cos (lat * (Real.pi / 180)) * Real.cos (d2 * (Real.pi / 180)))| := by
+  have hd : peq (pcos (pradians lat) * pcos (pradians d2)) 0.0 = false := by
+    unfold peq pcos pradians; simp only [decide_eq_false_iff_not]; norm_num
+    exact ⟨left_ne_zero_of_mul hden, right_ne_zero_of_mul hden⟩
+  unfold times_rise_transit_set rts_cosH0
+  simp only [hd, Bool.false_eq_true, if_false]
+  by_cases hc : plt 1.0 (pabs ((psin (pradians h0) - psin (pradians lat) * psin (pradians d2)) /
+      (pcos (pradians lat) * pcos (pradians d2)))) = true
+  · simp only [hc, if_true, true_iff]
+    unfold plt pabs psin pcos pradians at hc
+    norm_num at hc; exact hc
+  · simp only [hc, Bool.false_eq_true, if_false]
+    have : ¬ (1 < |(Real.sin (h0 * (Real.pi / 180)) - Real.sin (lat * (Real.pi / 180)) * Real.sin (d2 * (Real.pi / 180))) /
+            (Real.cos (lat * (Real.pi / 180)) * Real.cos (d2 * (Real.pi / 180)))|) := by
+      unfold plt pabs psin pcos pradians at hc
+      norm_num at hc; rw [not_lt]; exact hc
+    simp only [this, iff_false]
+    cases rts_times lon lat a1 d1 a2 d2 a3 d3 h0 dt th0
+        ((psin (pradians h0) - psin (pradians lat) * psin (pradians d2)) / (pcos (pradians lat) * pcos (pradians d2))) <;> simp
+
+/-- "… exactly when the body never crosses that altitude": for a latitude and a middle declination
+    strictly between the poles, no times are reported iff at NO hour angle `H` the sine of the body's
+    altitude at its middle position, `sin φ sin δ2 + cos φ cos δ2 cos H` (Meeus 13.6), equals `sin h0`
+    — i.e. iff the body, kept at its middle declination, never reaches altitude `h0`. (The daily motion of
+    the body is not part of the test, as coded.) -/
+theorem rts_none_iff_never_reaches (lon lat a1 d1 a2 d2 a3 d3 h0 dt th0 : ℝ) (hφ : |lat| < 90) (hδ : |d2| < 90) :
+    times_rise_transit_set lon lat a1 d1 a2 d2 a3 d3 h0 dt th0 = .ok none ↔
+      ∀ H : ℝ, Spec.SunEvents.sinAltitude (lat * (Real.pi / 180)) (d2 * (Real.pi / 180)) H ≠
+        Real.sin (h0 * (Real.pi / 180)) := by
+  have hpi := Real.pi_pos
+  have cpos : ∀ x : ℝ, |x| < 90 → 0 < Real.cos (x * (Real.pi / 180)) := by
+    intro x hx
+    rw [abs_lt] at hx
+    exact Real.cos_pos_of_mem_Ioo ⟨by nlinarith, by nlinarith⟩
+  have h1 := cpos lat hφ
+  have h2 := cpos d2 hδ
+  have hpos : 0 < Real.cos (lat * (Real.pi / 180)) * Real.cos (d2 * (Real.pi / 180)) := mul_pos h1 h2
+  rw [rts_none_iff _ _ _ _ _ _ _ _ _ _ _ hpos.ne']
+  unfold Spec.SunEvents.sinAltitude
+  set A := Real.sin (lat * (Real.pi / 180)) * Real.sin (d2 * (Real.pi / 180))
+  set B := Real.cos (lat * (Real.pi / 180)) * Real.cos (d2 * (Real.pi / 180))
+  set S := Real.sin (h0 * (Real.pi / 180))
+  constructor
+  · intro h H heq
+    have : (S - A) / B = Real.cos H := by rw [← heq]; field_simp; ring
+    rw [this] at h
+    exact absurd (Real.abs_cos_le_one H) (not_le.mpr h)
+  · intro h
+    by_contra hle
+    rw [not_lt] at hle
+    apply h (Real.arccos ((S - A) / B))
+    rw [Real.cos_arccos (neg_le_of_abs_le hle) (le_of_abs_le hle)]
+    field_simp; ring
+
+/-- `check_value` terminates within its fuel at every call site (|m| < 1.5 there; shown for −6 ≤ m ≤ 7):
+    it returns `m` shifted by an integer into [0, 1]. -/
+theorem rts_check_value_spec (m : ℝ) (h : -6 ≤ m ∧ m ≤ 7) :
+    ∃ r, rts_check_value m = some r ∧ 0 ≤ r ∧ r ≤ 1 ∧ ∃ n : ℤ, r = m + n := by
+  have := rts_check_loop 7 m (by norm_num; linarith [h.1]) (by norm_num; linarith [h.2])
+  simpa [rts_check_value] using this
+
+/-- Both sides of `rts_none_iff_never_reaches` occur: a body at declination 80° seen from latitude 60°
+    never sets (upper side: no times), one at declination 0° does rise (times are attempted). -/
+example : times_rise_transit_set 0 60 0 80 0 80 0 80 0 0 0 = .ok none := by
+  rw [rts_none_iff_never_reaches _ _ _ _ _ _ _ _ _ _ _ (by norm_num) (by norm_num)]
+  intro H
+  unfold Spec.SunEvents.sinAltitude
+  have hpi := Real.pi_pos
+  -- sin h0 = 0, and sinAlt ≥ sin φ sin δ − cos φ cos δ = −cos(φ+δ) = −cos 140° > 0
+  have hs : Real.sin ((0:ℝ) * (Real.pi / 180)) = 0 := by simp
+  rw [hs]
+  have hc := Real.neg_one_le_cos H
+  have hcφ : 0 < Real.cos (60 * (Real.pi / 180)) := Real.cos_pos_of_mem_Ioo ⟨by nlinarith, by nlinarith⟩
+  have hcδ : 0 < Real.cos (80 * (Real.pi / 180)) := Real.cos_pos_of_mem_Ioo ⟨by nlinarith, by nlinarith⟩
+  have hsum : Real.cos (60 * (Real.pi / 180) + 80 * (Real.pi / 180)) < 0 :=
+    Real.cos_neg_of_pi_div_two_lt_of_lt (by nlinarith) (by nlinarith)
+  rw [Real.cos_add] at hsum
+  have : 0 ≤ Real.cos (60 * (Real.pi / 180)) * Real.cos (80 * (Real.pi / 180)) * (Real.cos H + 1) :=
+    mul_nonneg (mul_pos hcφ hcδ).le (by linarith)
+  nlinarith
+
+example : times_rise_transit_set 0 60 0 0 0 0 0 0 0 0 0 ≠ .ok none := by
+  rw [Ne, rts_none_iff_never_reaches _ _ _ _ _ _ _ _ _ _ _ (by norm_num) (by norm_num)]
+  intro h
+  apply h (Real.pi / 2)
+  unfold Spec.SunEvents.sinAltitude
+  simp
+
+/-- The three-point interpolation `interpol(n, y1, y2, y3)` is Meeus' formula 3.3,
+    `y2 + n/2·(a + b + n·c)` with `a = y2 − y1`, `b = y3 − y2`, `c = b − a`, when neither difference
+    needs the ±180° reduction (|a|, |b| < 180°) and the result is a proper Angle (|·| < 360). -/
+theorem rts_interpol_meeus (n y1 y2 y3 : ℝ) (ha : |y2 - y1| < 180) (hb : |y3 - y2| < 180)
+    (hr : |y2 + n * ((y2 - y1) + (y3 - y2) + n * ((y3 - y2) - (y2 - y1))) / 2| < 360) :
+    rts_interpol n y1 y2 y3 = y2 + n * ((y2 - y1) + (y3 - y2) + n * ((y3 - y2) - (y2 - y1))) / 2 := by
+  have ra : roundHE ((y2 - y1) / 360.0) = 0 :=
+    roundHE_zero (by rw [abs_div]; norm_num; rw [div_lt_iff₀ (by norm_num)]; linarith)
+  have rb : roundHE ((y3 - y2) / 360.0) = 0 :=
+    roundHE_zero (by rw [abs_div]; norm_num; rw [div_lt_iff₀ (by norm_num)]; linarith)
+  unfold rts_interpol aAdd
+  simp only [ra, rb, ofInt]
+  norm_num
+  rw [aReduce_of_abs_lt (by norm_num at hr ⊢; exact hr)]
 
 end Pymeeus.C14
